@@ -213,6 +213,12 @@ def seq_of(eng, st, v, node=None):
                 r = ite(k == i, items[i], r)
             return r
         return HSeq(len(items), get if items else (lambda k: VInt(0)))
+    if isinstance(v, VFn):
+        # an opaque sequence of strings (e.g. a label list handed around as one object): abstract length and items
+        ln = z3.Function("opaque.len", Fn, z3.IntSort())(v.t)
+        eng.axioms.append(ln >= 0)
+        it = z3.Function("opaque.label_item", Fn, z3.IntSort(), Label)
+        return HSeq(ln, lambda k, t=v.t: VLabel(it(t, k)), etype=T.label)
     if isinstance(v, VConc) and v.name == "range":
         lo, hi = v.obj
         n = z3.simplify(hi - lo)
@@ -491,6 +497,15 @@ def m_np_array(eng, st, args, kwargs, node):
         s2 = st.fork()
         s2.pc = list(st.pc) + [0 <= k, k < o.len]
         eng.oblige(s2, "np.array(list of lists): all rows have the same length", st.heap[g(k).addr].len == st.heap[e0.addr].len, "safety", node)
+        dt = kwargs.get("dtype")
+        if isinstance(dt, VConc) and dt.name in ("builtin:int", "int"):
+            iof = eng.label_fn("int_of")
+            for d_ in "0123456789":
+                k2 = ("intof-lit", d_)
+                if k2 not in eng._axiom_keys:
+                    eng._axiom_keys.add(k2)
+                    eng.axioms.append(iof(eng.label_of(d_)) == int(d_))
+            return st.alloc(H2D(o.len, cols, lambda r, c: VInt(iof(st.heap[g(r).addr].get(c).t)), etype=T.int))
         return st.alloc(H2D(o.len, cols, lambda r, c: st.heap[g(r).addr].get(c), etype=st.heap[e0.addr].etype))
     return st.alloc(HSeq(o.len, o.get, numpy=True, etype=o.etype))
 
@@ -1137,6 +1152,15 @@ def m_store_mask(eng, st, base, idx, v, node):
     o = st.heap[base.addr]
     mo = st.heap[idx.addr]
     e0 = mo.get(z3.Int("k!probe"))
+    if isinstance(e0, VInt) and not isinstance(v, VRef) and mo.note and mo.note[0] == "filter" and len(mo.note) >= 4 and getattr(mo, "identity_idx", False):
+        # a[np.where(mask)] = scalar  is  a[mask] = scalar
+        _, ma_, n_, _b = mo.note
+        eng.oblige(st, "the mask under np.where has the length of the array", n_ == o.len, "safety", node)
+        g = o.get
+        probe = g(z3.Int("k!probe"))
+        vv = as_float(v) if isinstance(probe, VFloat) else (VBool(eng.truth(v, st)) if isinstance(probe, VBool) else v)
+        st.heap[base.addr] = HSeq(o.len, lambda k: ite(z3.Select(ma_, k), vv, g(k)), numpy=True, etype=o.etype)
+        return None
     if isinstance(e0, VInt) and not isinstance(v, VRef):
         # a[indices] = scalar: every listed position is set
         ig, n_ = mo.get, mo.len
@@ -1202,8 +1226,14 @@ def is_full_slice(n):
 def m_subscript2d(eng, st, base, sl, node):
     o = st.heap[base.addr]
     if isinstance(o, HSeq):
+        if isinstance(sl, ast.Tuple) and len(sl.elts) == 2 and isinstance(sl.elts[0], ast.Constant) and sl.elts[0].value is None and is_full_slice(sl.elts[1]):
+            g1 = o.get
+            return st.alloc(H2D(1, o.len, lambda r, c: g1(c), etype=o.etype, note=("row-vector",)))      # a[None, :]
         raise Unsupported("2-D subscript of a 1-D sequence (line %d)" % node.lineno)
     g = o.get
+    if isinstance(sl, ast.Tuple) and len(sl.elts) == 2 and is_full_slice(sl.elts[0]) and isinstance(sl.elts[1], ast.Slice) and not is_full_slice(sl.elts[1]):
+        clo, chi = eng.slice_bounds(o.cols, sl.elts[1], st)
+        return st.alloc(H2D(o.rows, z3.If(chi > clo, chi - clo, 0), lambda r, c: g(r, c + clo), etype=o.etype))
     if not isinstance(sl, ast.Tuple):
         # a[i] -> row ; a[mask] / a[idx] -> rows
         sl = ast.Tuple(elts=[sl, ast.Slice(lower=None, upper=None, step=None)], ctx=ast.Load())
@@ -1233,7 +1263,7 @@ def m_subscript2d(eng, st, base, sl, node):
             ma = mask_array(eng, st, lambda k: ig(k).t)
             n = len_alias(eng, o.rows)
             filter_axioms(eng, ma, n)
-            return st.alloc(H2D(CNT(ma, n), o.cols, lambda r, c: g(IDX(ma, n, r), c), etype=o.etype, note=("filter", ma, n)))
+            return st.alloc(H2D(CNT(ma, n), o.cols, lambda r, c: g(IDX(ma, n, r), c), etype=o.etype, note=("filter", ma, n, o)))
         if isinstance(e0, VInt):
             ig, m = io.get, io.len
             k = z3.Int(fresh_name("k!fi2"))
@@ -1302,6 +1332,51 @@ def m_store2d(eng, st, base, sl, v, node):
         newget = lambda r, c: ite(z3.And(r == i, c == j), vv, g(r, c))
     st.heap[base.addr] = H2D(o.rows, o.cols, newget, etype=o.etype)
     return None
+
+
+def m_np_prod_axis1(eng, st, args, kwargs, node):
+    """np.prod(M, axis=1) of a Boolean matrix: entry r is non-zero iff every entry of row r is true (witness function for a false entry)"""
+    v = args[0]
+    ax = kwargs.get("axis")
+    if not (isinstance(v, VRef) and isinstance(st.heap[v.addr], H2D) and isinstance(ax, VInt) and z3.is_int_value(ax.t) and ax.t.as_long() == 1):
+        raise Unsupported("np.prod form (line %d)" % node.lineno)
+    o = st.heap[v.addr]
+    g, cols = o.get, o.cols
+    nm = fresh_name("rowall")
+    ALL = z3.Function(nm, z3.IntSort(), z3.BoolSort())
+    W = z3.Function(nm + ".w", z3.IntSort(), z3.IntSort())
+    r, c = z3.Int(fresh_name("r!pa")), z3.Int(fresh_name("c!pa"))
+    eng.axioms.append(z3.ForAll([r, c], z3.Implies(z3.And(ALL(r), 0 <= c, c < cols), eng.truth(g(r, c), st)), patterns=[z3.MultiPattern(ALL(r), eng.truth(g(r, c), st))] if False else []))
+    eng.axioms.append(z3.ForAll([r], z3.Implies(z3.Not(ALL(r)), z3.And(0 <= W(r), W(r) < cols, z3.Not(eng.truth(g(r, W(r)), st)))), patterns=[ALL(r)]))
+    res = HSeq(o.rows, lambda q: VInt(z3.If(ALL(q), 1, 0)), numpy=True, etype=T.int, note=("rowall", ALL, o))
+    return st.alloc(res)
+
+
+def m_product(eng, st, args, kwargs, node):
+    """itertools.product(alphabet_string, repeat=n): every string of length n over the alphabet exactly once (A-ext).
+    Rows are abstract: PCH(k, c) is character c of tuple k; completeness is instantiated by the contract that needs it."""
+    al, rep = args[0], kwargs.get("repeat")
+    if not (isinstance(al, VStr) and rep is not None and len(args) == 1):
+        raise Unsupported("itertools.product form (line %d)" % node.lineno)
+    n = eng.as_int(rep)
+    nm = fresh_name("prod")
+    NP = z3.Int(nm + ".count")
+    PCH = z3.Function(nm + ".ch", z3.IntSort(), z3.IntSort(), Label)
+    DIFF = z3.Function(nm + ".diff", z3.IntSort(), z3.IntSort(), z3.IntSort())
+    k, c, k2 = z3.Int(fresh_name("k!pr")), z3.Int(fresh_name("c!pr")), z3.Int(fresh_name("k2!pr"))
+    chars = [eng.label_of(ch) for ch in al.s]
+    eng.axioms.append(NP >= 1)          # a product of non-empty alphabets has at least one element (the empty tuple for repeat = 0)
+    eng.axioms.append(z3.ForAll([k, c], z3.Or([PCH(k, c) == ch for ch in chars]), patterns=[PCH(k, c)]))
+    eng.axioms.append(z3.ForAll([k, k2], z3.Implies(z3.And(0 <= k, k < k2, k2 < NP), z3.And(0 <= DIFF(k, k2), DIFF(k, k2) < n, PCH(k, DIFF(k, k2)) != PCH(k2, DIFF(k, k2)))),
+                                patterns=[DIFF(k, k2)]))
+    eng._product = {"NP": NP, "PCH": PCH, "n": n, "alphabet": al.s, "DIFF": DIFF}
+
+    def row(q):
+        eng._addr += 1
+        from .engine import Heap
+        Heap.shared[eng._addr] = HSeq(z3.If(n > 0, n, 0), lambda cc, q=q: VLabel(PCH(q, cc)), etype=T.label)
+        return VRef(eng._addr)
+    return st.alloc(HSeq(NP, row, note=("product", nm)))
 
 
 def m_np_zeros2(eng, st, args, kwargs, node):
@@ -1547,6 +1622,9 @@ def install(eng):
     M["builtin:map"] = m_map
     M["builtin:tuple"] = m_tuple
     M["itertools.combinations"] = m_combinations
+    M["itertools.product"] = m_product
+    M["np.prod"] = m_np_prod_axis1
+    M["comm.bcast"] = lambda eng, st, args, kwargs, node: args[0]        # on the root the broadcast value is the argument (A-mpi)
     M["generator.is_float"] = m_is_float
     M["is_float"] = m_is_float
     eng.module_consts.update({
